@@ -89,7 +89,7 @@ PROPS = {
             "own address never active": "theorem (full, every state reachable by any history of public calls with change_identity used as documented — same address, or an address without an active record): C09H.own_address_never_active_always, C09H.own_address_never_active_step (invariant OwnInv through every model function, Proofs/OwnInv.lean); per update: own_address_never_active, C19.own_address_updates_become_down",
             "data from own identity/address rejected before any change": "theorem (full): data_from_own_address_is_rejected",
             "payload of a superseded or Down sender discarded": "theorem (full, any payload, any codec): dead_sender_payload_is_discarded (once the header update leaves the sender inactive the outcome is inactiveSender's, whatever follows the header)",
-            "never falls back to a superseded identity": "theorem per update (replaced_only_by_conflict_winner: a record's identity is only ever replaced by one that wins the conflict); the whole-history generation order is checked by search (max generation per address) and correspondence",
+            "never falls back to a superseded identity": "theorem (full, histories of any length without a forget-timer): C09H.generation_never_goes_back_step, C09H.generation_never_goes_back (invariant GenInv, Proofs/GenInv.lean: an address listed at generation >= g stays listed at generation >= g); per update: replaced_only_by_conflict_winner",
         },
         RULE_HIST + "search: per-call oracle on real instances over domains with three generations per address including the own address (duplicate addresses, active own-address records, size vs addresses told, replacement by non-winners, missing Rename, generation fallback, payload of dead senders).",
         ["change_identity is only called with an identity whose address is not currently listed (documented use); histories are not judged after a call that violates this",
